@@ -101,6 +101,11 @@ func (c13) Gen(r *rand.Rand, tier string, run int) *core.Case {
 				c.Ops = append(c.Ops, core.Op{Kind: "emit", Actor: 50, X: int64(r.IntN(4))})
 			}
 			c.Ops = append(c.Ops, core.Op{Kind: "barrier"})
+			if i == 1 && r.IntN(3) == 0 {
+				// an early subscription attempt on a crowded connection
+				c.Params["crowd"] = 1
+				c.Ops = append(c.Ops, core.Op{Kind: "crowded-sub", Actor: 40, X: int64(r.IntN(4)), Y: int64(r.IntN(conns))}, core.Op{Kind: "barrier"})
+			}
 		}
 		emit(2)
 		return c
@@ -253,6 +258,9 @@ func (c13) Run(c *core.Case, env *core.Env) {
 		return
 	}
 	st.w = w
+	if c.P("crowd", 0) == 1 {
+		w.Impls[0].SlowMs = 2
+	}
 	if c.P("broken", 0) == 1 {
 		vcl, err := Connect("victim", "u", "p")
 		if err != nil {
@@ -476,6 +484,40 @@ func (as *c13actor) do(c *core.Case, env *core.Env, st *c13state, op core.Op, cl
 		for j := 0; j < int(op.X); j++ {
 			zzsim.Yield("h.sub-pause")
 		}
+	case "crowded-sub":
+		// a subscription attempted while its connection is crowded with more
+		// calls than the server queues for one connection: the registration
+		// may be refused ("consumer blocked") - the subscriber is then not
+		// acknowledged and owed nothing; whoever subscribes afterwards is
+		conn := int(op.Y) % nConn
+		if c.P("share_proxy", 0) == 0 && as.proxies[conn] == nil {
+			// (its proxy is made while the connection is still quiet)
+			q, err := ProbeProxy(clients[conn], st.w.ServiceID, 1)
+			if err != nil {
+				env.Violate("setup/proxy", "%v", err)
+				return false
+			}
+			as.proxies[conn] = q
+		}
+		var cw sync.WaitGroup
+		for k := 0; k < 26; k++ {
+			cw.Add(1)
+			go func(k int) {
+				defer cw.Done()
+				shared[conn].Slow(probe.Token{Client: int32(a), Seq: int32(k), Text: "crowd"})
+			}(k)
+		}
+		for j := 0; j < 20+int(op.X)*15; j++ {
+			zzsim.Yield("h.crowd")
+		}
+		op.Kind = "sub"
+		ok := as.do(c, env, st, op, clients, shared)
+		cw.Wait()
+		env.Probe("subscriptions-attempted-on-a-crowded-connection")
+		if as.cur == nil {
+			env.Probe("subscription-refused-on-a-crowded-connection")
+		}
+		return ok
 	case "sub":
 		if as.cur != nil {
 			return true
@@ -776,6 +818,10 @@ func (c13) Check(c *core.Case, env *core.Env, res zzsim.Result, v *core.Verdict)
 	for _, s := range st.subs {
 		name := fmt.Sprintf("subscriber %d (sig%d, connection %d, subscribed [%d..%d], cancel [%d..%d])", s.sub, s.sig, s.conn, s.ackCall, s.ackRet, s.cancelCall, s.cancelRet)
 		if s.err != nil {
+			if s.sub == 40 && strings.Contains(s.err.Error(), "consumer blocked") {
+				// refused on a crowded connection, and said so: owed nothing
+				continue
+			}
 			bad("subscribe-error", "%s: subscription failed: %v", name, s.err)
 			continue
 		}
